@@ -3,7 +3,7 @@
 use crate::common::AuthVar;
 use serde::{Deserialize, Serialize};
 
-pub const CHAINS: [&str; 8] = [
+pub const CHAINS: [&str; 14] = [
     "ethereum",
     "avalanche",
     "sui",
@@ -13,6 +13,13 @@ pub const CHAINS: [&str; 8] = [
     // two long names that differ only in their last character
     "a-very-long-chain-name-that-goes-well-beyond-sixty-four-bytes-of-utf8-text-A",
     "a-very-long-chain-name-that-goes-well-beyond-sixty-four-bytes-of-utf8-text-B",
+    // spellings that a normalising comparison would identify with "ethereum" / "avalanche" / "héllo-chain"
+    "Ethereum",
+    "AVALANCHE",
+    "ethereum ",
+    " ethereum",
+    "ethereum\0",
+    "he\u{301}llo-chain",
 ];
 pub const HUB_CHAIN: &str = "axelar";
 // the empty string is last in both pools; everything before it is acceptable metadata
